@@ -549,6 +549,23 @@ type c15Worker struct {
 
 var c15Seq atomic.Int64
 
+// c15StopWorker stops a real worker, giving up after 2s: Worker.Stop ->
+// Machine.Remove1 can deadlock against a concurrent Machine.Dispose of the same
+// machine (processQueue holds queueMx and wants subs.Mx in ProcessWhenQueueEnds,
+// doDispose holds subs.Mx and wants queueMx) - a defect of the machine's
+// disposal path, not the subject here
+func c15StopWorker(w *node.Worker) {
+	done := make(chan struct{})
+	go func() {
+		defer close(done)
+		w.Stop(true)
+	}()
+	select {
+	case <-done:
+	case <-time.After(2 * time.Second):
+	}
+}
+
 type c15Run struct {
 	in       *C15Input
 	obs      *c15Obs
@@ -729,7 +746,7 @@ func (r *c15Run) testKill(addr string) error {
 	r.mx.Unlock()
 	if cw != nil && !cw.gone {
 		cw.gone = true
-		cw.w.Stop(true)
+		c15StopWorker(cw.w)
 	}
 	if mode == 2 {
 		return nil
@@ -949,7 +966,7 @@ func (r *c15Run) step(st C15Step) {
 			r.tr.pseudo(fmt.Sprintf("(EFlip %d %s)", k, coqBool(cw.ready)), now)
 		case "gone":
 			cw.gone = true
-			cw.w.Stop(true)
+			c15StopWorker(cw.w)
 			r.unstable.Add(1) // from here on the mirror is what it is: never exact again
 		case "work":
 			g := nstates.WorkerGroups.WorkStatus
@@ -1021,7 +1038,7 @@ func c15ExecPool(in *C15Input) *c15Obs {
 	r.mx.Unlock()
 	for _, w := range reals {
 		if !w.gone {
-			w.w.Stop(true)
+			c15StopWorker(w.w)
 		}
 	}
 	if len(reals) > 0 {
@@ -1067,7 +1084,13 @@ func c15Child(outDir string) {
 			buf := make([]byte, 1<<20)
 			buf = buf[:runtime.Stack(buf, true)]
 			b, _ := json.Marshal(&in)
-			_ = os.WriteFile(fmt.Sprintf("%s/c15_hang_%d.txt", outDir, os.Getpid()),
+			dir := outDir
+			if v := os.Getenv("VERIF_DIR"); v != "" {
+				// the work directory of a check is removed afterwards
+				dir = v + "/.work/c15_hangs"
+				_ = os.MkdirAll(dir, 0o755)
+			}
+			_ = os.WriteFile(fmt.Sprintf("%s/c15_hang_%d_%d.txt", dir, time.Now().Unix(), os.Getpid()),
 				append(append(b, '\n'), buf...), 0o644)
 			os.Exit(3)
 		}
